@@ -14,6 +14,9 @@ func (reg *Registry[E]) ReadFrom(r io.Reader) (int64, error) {
 	if err != nil {
 		return n, err
 	}
+	if length < 0 {
+		return n, errors.New("registry length less than zero")
+	}
 
 	reg.Clear()
 
@@ -69,6 +72,9 @@ func (reg *Registry[E]) ReadTagsFrom(r io.Reader) (int64, error) {
 		}
 
 		n += n1 + n2
+		if length < 0 {
+			return n, errors.New("tag length less than zero")
+		}
 		values := make([]*E, length)
 
 		var id pk.VarInt
